@@ -347,10 +347,12 @@ def djs_reject(data, model, outmask=None, inmask=None, sigma=None,
     # Do not consider rejecting points that are already rejected by outmask,
     # if sticky is set.
     #
+    # A mask value is "good" if it evaluates to True, whatever its bits are.
+    #
     if inmask is not None:
-        badness *= inmask
+        badness *= (inmask != 0)
     if sticky:
-        badness *= outmask
+        badness *= (outmask != 0)
     #
     # Reject a maximum of maxrej (additional) points in all the data, or
     # in each group as specified by groupsize, and optionally along each
@@ -444,14 +446,14 @@ def djs_reject(data, model, outmask=None, inmask=None, sigma=None,
                 newmask.flat[np.maximum(irejects - k, 0)] = 0
                 newmask.flat[np.minimum(irejects + k, newmask.size - 1)] = 0
     if inmask is not None:
-        newmask = newmask & inmask
+        newmask = newmask & (inmask != 0)
     if sticky:
-        newmask = newmask & outmask
+        newmask = newmask & (outmask != 0)
     #
     # Set qdone if the input outmask is identical to the output outmask;
     # convert np.bool to Python built-in bool.
     #
-    qdone = bool(np.all(newmask == outmask))
+    qdone = bool(np.all(newmask == (outmask != 0)))
     outmask = newmask
     return (outmask, qdone)
 
